@@ -290,8 +290,12 @@ def gen_retransmit(rng, nn=1):
         sc.sub(s, [(rng.choice(["a/#", "a/b", "+/b"]), rng.choice([1, 2, 1, 2, 0]))])
     outstanding = {s: [] for s in subs}   # per client: list of [content, phase] ; phase: 'pub1' | 'pub2' | 'rel'
     counters = {s: 0 for s in subs}
+    after_sweep = False
     for _ in range(rng.choice([4, 7, 10])):
         r = rng.random()
+        if after_sweep and rng.random() < 0.7:
+            r = 0.0   # a fresh message right after a sweep: identifiers released too early would collide now
+        after_sweep = False
         live = [s for s in subs if sc.clients[s]["alive"]]
         if r < 0.4 or not any(outstanding[s] for s in live):
             # a new message: left unacknowledged
@@ -317,6 +321,7 @@ def gen_retransmit(rng, nn=1):
                 for p, phase, can in outstanding[s]:
                     exp.setdefault(s, []).append(p if phase == "pub" else "pubrel")
             sc.emit(f"expire {node}", exp, "retransmission")
+            after_sweep = True
         elif r < 0.85:
             s = rng.choice([x for x in live if outstanding[x]] or live)
             if not outstanding[s]:
